@@ -5,6 +5,7 @@ Model: Model/Framer.lean (M2) = consumeSingleTURNFrame + STUNConn.ReadFrom over 
 (valid number, declared length, padded to 4) — `encodeCD_WF` shows the encoder's output is one.
 -/
 import TurnModel.Lemmas.Framer
+import TurnModel.Gen.Consts
 namespace Turn.C10
 
 /-- a whole frame at the head of the buffer is sized exactly, whatever follows it -/
@@ -70,5 +71,12 @@ example : WF ([0, 1, 0, 0] ++ cookie ++ List.replicate 12 7) :=
 /-- a two-frame stream cut in the middle of each frame comes out as the two frames -/
 example : (readN 2 [[0x40, 0, 0], [1, 9, 0, 0, 0, 0x40], [1, 0, 0]] []).1 =
     [[0x40, 0, 0, 1, 9, 0, 0, 0], [0x40, 1, 0, 0]] := by decide
+
+
+/-- regenerated: the framer classifies from the 4-byte header (no longer waits for 9 bytes), and the
+    STUN header size / padding unit are the model's -/
+theorem framer_consts_regenerated :
+    Gen.Consts.framer_minHeader = 4 ∧ Gen.Consts.proto_stunHeaderSize = 20 ∧ Gen.Consts.proto_padding = 4 ∧
+    Gen.Consts.proto_channelDataHeaderSize = 4 := by decide
 
 end Turn.C10
